@@ -54,6 +54,8 @@ def attribute(t, evn, idx, inv):
                 if "qlen" in evn and evn["qlen"] != prev["qlen"] + 1:
                     p = "C06"
                 break
+    if evn.get("ev") == "SendRet" and evn.get("res") == "sent":
+        p = "C06"          # a plain send returned without a critical section of its own: the item is lost silently
     if evn.get("ev") == "CallerPanicked" and evn.get("op") == "send":
         p = "C08+C09"
     if evn.get("ev") == "Ret":
